@@ -42,6 +42,10 @@ type StepCase struct {
 	Victim2     string
 	Site2       string
 	SecondFirst bool
+	// Abort: the victim's client resets its connection while the server is
+	// parked in the middle of handling its request (fault at that point); the
+	// server finishes the request on a dead connection and then runs the departure
+	Abort bool
 }
 
 func (c StepCase) String() string {
@@ -51,6 +55,9 @@ func (c StepCase) String() string {
 			order = "second victim released first"
 		}
 		return fmt.Sprintf("%s parked at pass %d of %s, then %s parked at %s, %s", c.Victim, c.Skip+1, c.Site, c.Victim2, c.Site2, order)
+	}
+	if c.Abort {
+		return fmt.Sprintf("%s parked at pass %d of %s, its client resets the connection meanwhile", c.Victim, c.Skip+1, c.Site)
 	}
 	return fmt.Sprintf("%s parked at pass %d of %s", c.Victim, c.Skip+1, c.Site)
 }
@@ -548,6 +555,9 @@ func StepRun(p *sut.Proc, c StepCase) (res *StepResult) {
 	}
 	done := make(chan error, 1)
 	go func() { done <- en.interfere(c.Victim) }()
+	if c.Abort {
+		en.v.Abort()
+	}
 	var ierr error
 	select {
 	case ierr = <-done:
@@ -570,13 +580,19 @@ func StepRun(p *sut.Proc, c StepCase) (res *StepResult) {
 	res.Signature = fmt.Sprintf("overlapped=%v", res.Overlapped)
 	v, w, m := en.v, en.w, en.m
 	gone := map[*scen.C]bool{}
-	switch c.Victim {
+	victimKind := c.Victim
+	if c.Abort {
+		victimKind = "leave" // whatever it was doing, the victim is gone afterwards
+	}
+	switch victimKind {
 	case "leave", "lastleave":
 		gone[v] = true
 		if ok, _ := scen.Departed(p, v, 8*time.Second); !ok {
 			res.Findings = append(res.Findings, wedgeOrInconclusive(p, c, "the departing connection's handler never returned after the release"))
 			return
 		}
+	}
+	switch c.Victim {
 	case "create":
 		gone[m], gone[w] = true, true
 	case "join":
@@ -610,7 +626,7 @@ func StepRun(p *sut.Proc, c StepCase) (res *StepResult) {
 		barrierAll()
 	}
 	// the victim's answer
-	if c.Victim == "join" || c.Victim == "switch" || c.Victim == "create" {
+	if !c.Abort && (c.Victim == "join" || c.Victim == "switch" || c.Victim == "create") {
 		n := 0
 		for _, e := range v.LogCopy() {
 			if jr, ok := e.M.(*hagallpb.ParticipantJoinResponse); ok && (c.Victim == "create" || jr.SessionId == en.sid) && (c.Victim != "switch" || jr.SessionId != en.oldSID) {
@@ -791,7 +807,7 @@ func (en *stepEnv) judgeSession(c StepCase, res *StepResult, snap *scen.Snapshot
 			}
 		}
 	}
-	if c.Victim == "join" || c.Victim == "switch" {
+	if !c.Abort && (c.Victim == "join" || c.Victim == "switch") {
 		if k := fmt.Sprint("join ", v.PID); wn[k] != 1 {
 			res.Findings = append(res.Findings, sf([]string{"C02", "C01"}, "relay/join-not-exactly-once", c, "the witness received %d join relays for the victim (participant %d)", wn[k], v.PID))
 		}
@@ -833,8 +849,11 @@ func (en *stepEnv) judgeSession(c StepCase, res *StepResult, snap *scen.Snapshot
 			res.Findings = append(res.Findings, sf([]string{"C06"}, "departure/participant-survives", c, "%s (participant %d) is still listed", who, l.PID))
 		}
 	}
-	if c.Victim == "leave" {
+	if c.Victim == "leave" || c.Abort && c.Victim == "delete" {
 		departedChecks("the departed victim", v, en.vNP, en.vP)
+	}
+	if c.Abort && (strings.HasPrefix(c.Victim, "compadd-") || strings.HasPrefix(c.Victim, "action-")) {
+		departedChecks("the victim, whose client reset the connection", v, 0, 0)
 	}
 	if c.Victim == "join" {
 		departedChecks("the member that left while the victim was parked", en.x, 0, 0)
@@ -857,7 +876,7 @@ func (en *stepEnv) judgeSession(c StepCase, res *StepResult, snap *scen.Snapshot
 			res.Findings = append(res.Findings, sf([]string{"C16"}, "action/latest-timestamp-not-kept", c, "an action with timestamp 1700000100 was accepted for (entity %d, \"a0\") while another connection was setting one with timestamp 1700000050 on the same key; a probe is handed timestamp %d data %q: the older action replaced the newer one", en.e0, got.Sec, got.Data))
 		}
 	}
-	if strings.HasPrefix(c.Victim, "compadd-") || strings.HasPrefix(c.Victim, "action-") {
+	if !c.Abort && (strings.HasPrefix(c.Victim, "compadd-") || strings.HasPrefix(c.Victim, "action-")) {
 		// the victim's request is answered exactly once
 		n := 0
 		for _, e := range v.LogCopy() {
@@ -889,7 +908,7 @@ func (en *stepEnv) judgeSession(c StepCase, res *StepResult, snap *scen.Snapshot
 		c   *scen.C
 		sub []uint32
 	}{{"the witness", w, []uint32{en.t, en.t2}}, {"the newcomer that joined while the victim was parked", en.n, nil}}
-	if c.Victim == "join" || c.Victim == "switch" {
+	if !c.Abort && (c.Victim == "join" || c.Victim == "switch") {
 		views = append(views, struct {
 			who string
 			c   *scen.C
